@@ -377,8 +377,12 @@ def empty_object_still_written(ctx):
     """DownloadChunkIterator returns the (possibly empty) first chunk, so an empty object
     still produces one write (and therefore the destination file)."""
     f = ctx.func('download.DownloadChunkIterator.__next__')
-    rets = [n for n in own_nodes(f.node) if isinstance(n, ast.Return)]
-    ok = any(q.guards_imply(q.guards(r), 'self._num_reads == 1') for r in rets)
+    # path rule: the iteration never ends on the first read - every path to `raise StopIteration` implies _num_reads != 1
+    g = ctx.cfg(f)
+    stops = [n for n in own_nodes(f.node) if isinstance(n, ast.Raise) and n.exc is not None and 'StopIteration' in norm(n.exc)]
+    rets = [n for n in own_nodes(f.node) if isinstance(n, ast.Return) and n.value is not None]
+    pcs = g.path_conditions([g.entry], [x for s_ in stops for x in g.nodes_of(s_)], labels=g.NORMAL)
+    ok = bool(stops) and bool(rets) and pcs is not None and all(q.guards_imply(pc, 'self._num_reads != 1') for pc in pcs)
     ctx.ob(f, 'first read is returned even when empty', ok, 'an empty object would produce no write: the destination is never created/opened')
     inc = [n for n in own_nodes(f.node) if isinstance(n, ast.AugAssign) and dotted(n.target) == 'self._num_reads']
     reads = [c for c in own_calls(f.node) if isinstance(c.func, ast.Attribute) and c.func.attr == 'read']
